@@ -14,6 +14,10 @@ import (
 	"github.com/open-telemetry/otel-arrow/collector/processor/concurrentbatchprocessor/zzverif/vs/vcontext"
 )
 
+// oracleEvals counts how often each oracle was actually evaluated (not how
+// often it fired): a vacuity guard reported in the evidence.
+var oracleEvals = map[string]int{}
+
 func isCtxErr(err error) bool {
 	return errors.Is(err, context.Canceled) || errors.Is(err, context.DeadlineExceeded)
 }
@@ -32,6 +36,7 @@ func (w *World) deliveries() map[string][]*Export {
 // atReturn runs on the caller thread right after Consume returned (C06).
 func (w *World) atReturn(c *CallerState, rs *ReqState) {
 	sc := w.sc
+	oracleEvals["C06_return_judged"]++
 	err := rs.Err
 	if err != nil && consumererror.IsPermanent(err) && !errors.Is(err, errSink) && !isCtxErr(err) {
 		// refused (cardinality limit): judged by C10 at the end
@@ -93,6 +98,7 @@ func (w *World) atReturn(c *CallerState, rs *ReqState) {
 // atShutdownReturn runs on the shutdown thread right after Shutdown returned.
 func (w *World) atShutdownReturn() {
 	s := vs.Cur()
+	oracleEvals["C11_shutdown_return_judged"]++
 	for _, e := range w.exports {
 		if !e.Done {
 			w.violate("C11", "Shutdown returned while export #%d was still in flight", e.Seq)
@@ -140,6 +146,7 @@ func (w *World) Invariant(s *vs.Sched) string {
 		if vcontext.PeekErr(c.Ctx) == nil {
 			continue
 		}
+		oracleEvals["C06_cancelled_caller_states_judged"]++
 		r := c.Thread.Pending()
 		if r == nil || r.Kind == vs.OpLock || r.Kind == vs.OpStart || r.Kind == vs.OpSleep {
 			continue
@@ -193,6 +200,7 @@ func (w *World) Check(out *vs.Outcome) ([]string, uint64) {
 		}
 	}
 	for _, e := range w.exports {
+		oracleEvals["C05_C09_C10_exports_judged"]++
 		if len(e.Items) == 0 {
 			w.violate("C09", "export #%d is empty", e.Seq)
 		}
@@ -251,11 +259,33 @@ func (w *World) Check(out *vs.Outcome) ([]string, uint64) {
 					if !consumererror.IsPermanent(rs.Err) {
 						w.violate("C10", "caller %s was refused with a non-permanent error: %v", c.Spec.Label, rs.Err)
 					}
-					// Not judged: a request whose combination is already admitted can be
-					// refused when it loses the Load-miss/Lock race against the last free
-					// slot (seen in D8-two-keys).  The property only says who must be
-					// refused, not that nobody else may be; see DESIGN.md section 5.
+					// A refusal is only legitimate when the limit is exhausted: limit != 0
+					// and at least `limit` combinations admitted (by the end of the
+					// execution, which is implied by "at the time of the refusal").  Not
+					// demanded: that the refused combination itself is new - a request
+					// whose combination is already admitted can lose the Load-miss/Lock
+					// race for the last slot (D8-two-keys); see DESIGN.md 0.3.
+					admitted := map[string]bool{}
+					for _, c2 := range w.callers {
+						for _, r2 := range c2.Reqs {
+							if r2.Started && (r2.Sent || (r2.Returned && r2.Err == nil)) {
+								admitted[comboOf(sc.Keys, c2.Spec.Metadata)] = true
+							}
+						}
+					}
+					if len(admitted) < int(sc.Limit) {
+						w.violate("C10", "caller %s was refused (%v) although only %d combination(s) were ever admitted and the limit is %d", c.Spec.Label, rs.Err, len(admitted), sc.Limit)
+					}
 					_ = distinct
+				}
+			}
+		}
+	}
+	if len(sc.Keys) > 0 && sc.Limit == 0 {
+		for _, c := range w.callers {
+			for _, rs := range c.Reqs {
+				if rs.Returned && rs.Err != nil && !rs.Sent && consumererror.IsPermanent(rs.Err) && !isCtxErr(rs.Err) && !errors.Is(rs.Err, errSink) {
+					w.violate("C10", "caller %s was refused (%v) although metadata_cardinality_limit is 0 (unlimited)", c.Spec.Label, rs.Err)
 				}
 			}
 		}
@@ -407,6 +437,7 @@ func (w *World) checkSizeTrigger() {
 				}
 			}
 			buf := deq - exp
+			oracleEvals["C09_size_trigger_points_judged"]++
 			if hasTimer && buf >= int(sc.S) {
 				w.violate("C09", "after handling request #%d the shard went back to waiting with %d items buffered although send_batch_size=%d is reached", k, buf, sc.S)
 			}
@@ -436,6 +467,7 @@ func (w *World) checkDeadline() {
 			}
 			for _, id := range rs.IDs {
 				for _, e := range d[id] {
+					oracleEvals["C09_item_deadlines_judged"]++
 					if lat := e.EnterTime - rs.ArriveTime; lat > limit {
 						w.violate("C09", "item %s was accepted at t=%d and exported at t=%d: %d > timeout %d (virtual ns)", id, rs.ArriveTime, e.EnterTime, lat, limit)
 					}
@@ -470,6 +502,7 @@ func (w *World) checkContexts(owner map[string]*CallerState) {
 			}
 		}
 		if len(order) >= 2 {
+			oracleEvals["C18_multi_context_exports_judged"]++
 			for _, c := range w.callers {
 				if c.Ctrl != nil && e.Ctrl == c.Ctrl {
 					w.violate("C18", "export #%d carries items from %d request contexts but runs under (a context derived from) the context of caller %s", e.Seq, len(order), c.Spec.Label)
@@ -515,6 +548,7 @@ func (w *World) checkContexts(owner map[string]*CallerState) {
 				}
 			}
 		} else if len(order) == 1 && sc.Tracing {
+			oracleEvals["C18_single_context_exports_judged"]++
 			c := ctxs[order[0]][0]
 			if c.Span != nil && e.Parent.SpanID() != c.Span.SpanContext().SpanID() {
 				w.violate("C18", "export #%d is fed by the single request context of caller %s but is not a child of its span", e.Seq, c.Spec.Label)
